@@ -25,9 +25,6 @@ Section ObjInd.
 End ObjInd.
 
 (* ---- copy (Node ...) in terms of copy_kids -------------------------------- *)
-Definition plain (m : mode) : bool :=
-  match m with MShare | MDrop | MEmpty => false | _ => true end.
-
 Lemma copy_node : forall a cls kids m n,
   copy (Node a cls kids) m n =
   match m with
@@ -369,4 +366,174 @@ Proof.
   split; [unfold below; vm_compute; repeat constructor|].
   split; [unfold body_owns; vm_compute; constructor; [|constructor]; left; split; tauto|].
   split; [vm_compute; discriminate|vm_compute; discriminate].
+Qed.
+
+(* ---- second pass: operations as writes along owned paths ------------------------- *)
+Lemma copy_fst_le : forall t m n, n <= fst (copy t m n).
+Proof. intros. apply (copy_ok_all t m n). Qed.
+
+Lemma copy_kids_fst_le : forall m cls ks n, n <= fst (copy_kids m cls ks n).
+Proof.
+  intros m cls ks. induction ks as [|[k c] r IH]; intro n; cbn [copy_kids]; [simpl; lia|].
+  destruct (sel m cls k) as [mk|]; [|apply IH].
+  pose proof (copy_fst_le c mk n) as L1.
+  destruct (copy c mk n) as [n1 c'] eqn:E1. cbn [fst] in L1.
+  specialize (IH n1). destruct (copy_kids m cls r n1) as [n2 r']. cbn [fst] in *. lia.
+Qed.
+
+Lemma assoc_copy_kids : forall m cls k mk ks c n0,
+  sel m cls k = Some mk -> assoc k ks = Some c ->
+  exists n1, n0 <= n1 /\ assoc k (snd (copy_kids m cls ks n0)) = Some (snd (copy c mk n1)).
+Proof.
+  intros m cls k mk ks. induction ks as [|[k' c'] r IH]; intros c n0 Hs Ha; [discriminate Ha|].
+  cbn [assoc] in Ha. cbn [copy_kids].
+  destruct (String.eqb k k') eqn:Ek.
+  - apply String.eqb_eq in Ek. subst k'. inversion Ha; subst c'. rewrite Hs.
+    exists n0. split; [lia|].
+    destruct (copy c mk n0) as [n1 c''] eqn:E1.
+    destruct (copy_kids m cls r n1) as [n2 r']. cbn [snd assoc].
+    rewrite String.eqb_refl. reflexivity.
+  - destruct (sel m cls k') as [mk'|] eqn:Es'.
+    + pose proof (copy_fst_le c' mk' n0) as L1.
+      destruct (copy c' mk' n0) as [n1 c''] eqn:E1. cbn [fst] in L1.
+      destruct (IH c n1 Hs Ha) as [n2 [L2 A2]].
+      destruct (copy_kids m cls r n1) as [n3 r'] eqn:E3. cbn [snd] in *.
+      exists n2. split; [lia|]. cbn [assoc]. rewrite Ek. exact A2.
+    + apply IH; assumption.
+Qed.
+
+(* an owned path leads, in the copy, to a newly allocated cell *)
+Lemma path_fresh : forall p t m n, path_copied m p t = true ->
+  exists a cls ks, lookup p (snd (copy t m n)) = Some (Node a cls ks) /\ n <= a.
+Proof.
+  induction p as [|k r IH]; intros t m n H.
+  - destruct t as [s|b c|b cls kids]; try discriminate H. cbn [path_copied] in H.
+    apply andb_true_iff in H as [Pm _]. rewrite copy_node_plain by exact Pm.
+    cbn [snd lookup]. eexists _, _, _. split; [reflexivity|lia].
+  - destruct t as [s|b c|b cls kids]; try discriminate H. cbn [path_copied] in H.
+    apply andb_true_iff in H as [Pm H].
+    destruct (sel m cls k) as [mk|] eqn:Es; [|discriminate H].
+    destruct (assoc k kids) as [c|] eqn:Ea; [|discriminate H].
+    rewrite copy_node_plain by exact Pm. cbn [snd lookup].
+    destruct (assoc_copy_kids m cls k mk kids c (S n) Es Ea) as [n1 [L1 A1]].
+    rewrite A1. destruct (IH c mk n1 H) as [a [cls' [ks' [Hl Ha]]]].
+    exists a, cls', ks'. split; [exact Hl|lia].
+Qed.
+
+Lemma fresh_writes_frame : forall n x ws, below n x ->
+  Forall (fun w => n <= target w) ws -> apply_all ws x = x.
+Proof.
+  intros n x ws B H. apply apply_all_frame. eapply Forall_impl; [|exact H].
+  intros w L Hx. unfold below in B. rewrite Forall_forall in B. specialize (B _ Hx). cbv beta in *. lia.
+Qed.
+
+Definition paths_owned (x : obj) (ws : list pw) : Prop :=
+  Forall (fun w => path_copied MCopy (pw_path w) x = true) ws.
+
+Lemma resolve_fresh : forall x n ws, paths_owned x ws ->
+  Forall (fun w => n <= target w) (resolve_all (snd (copy x MCopy n)) ws).
+Proof.
+  intros x n ws H. unfold resolve_all. induction H as [|w r Hw _ IH]; [constructor|].
+  cbn [flat_map]. apply Forall_app. split; [|exact IH].
+  unfold resolve. destruct (path_fresh _ _ _ n Hw) as [a [cls [ks [Hl Ha]]]].
+  rewrite Hl. destruct (pw_val w); (constructor; [exact Ha|constructor]).
+Qed.
+
+(* every operation of the shape op_not_inplace whose paths are owned leaves
+   the receiver as it was and returns the in-place result of a copy *)
+Lemma op_not_inplace_pure : forall ws n x, below n x -> paths_owned x ws ->
+  fst (op_not_inplace ws n x) = x /\
+  snd (op_not_inplace ws n x) = op_inplace ws (snd (copy x MCopy n)).
+Proof.
+  intros ws n x B H. split; [|reflexivity]. unfold op_not_inplace. cbn [fst].
+  eapply fresh_writes_frame; [exact B|]. apply resolve_fresh. exact H.
+Qed.
+
+Lemma table_not_inplace_pure : forall name l v n x,
+  In (name, l) inplace_table -> below n x -> paths_owned x (pws_of l v) ->
+  fst (op_not_inplace (pws_of l v) n x) = x /\
+  snd (op_not_inplace (pws_of l v) n x) = op_inplace (pws_of l v) (snd (copy x MCopy n)).
+Proof. intros name l v n x _ B H. apply op_not_inplace_pure; assumption. Qed.
+
+Lemma field_set_data_pure : forall x data axes n, below n x ->
+  path_copied MCopy [C; "'constructs'"] x = true -> path_copied MCopy [C] x = true ->
+  fst (field_set_data false x data axes n) = x.
+Proof.
+  intros x data axes n B H1 H2. unfold field_set_data.
+  apply op_not_inplace_pure; [exact B|]. repeat constructor; assumption.
+Qed.
+
+(* a field: data, constructs with a filter-free collection holding one coordinate *)
+Definition field_example : obj :=
+  Node 0 "Field" [(C, Node 1 "dict"
+    [("'constructs'", Node 2 "Constructs"
+        [("_construct_axes", Node 3 "dict" []);
+         ("_constructs", Node 4 "dict" [("'dimension_coordinate'", Node 5 "dict"
+            [("'dimensioncoordinate0'", Node 6 "DimensionCoordinate" [(C, Node 7 "dict"
+                [("'custom'", Node 8 "dict" []);
+                 ("'data'", Node 9 "Data" [(C, Node 10 "dict" [("'custom'", Node 11 "dict" [])])])])])])]);
+         ("_field_data_axes", Imm "tuple:['domainaxis0']")]);
+     ("'custom'", Node 12 "dict" []);
+     ("'data'", Node 13 "Data" [(C, Node 14 "dict" [("'custom'", Node 15 "dict" [])])])])].
+
+Lemma table_example :
+  exists name l, In (name, l) inplace_table /\ below 16 field_example /\
+    paths_owned field_example (pws_of l (Some (Imm "new"))) /\
+    erase (snd (op_not_inplace (pws_of l (Some (Imm "new"))) 16 field_example)) <> erase field_example.
+Proof.
+  eexists "Field", _. split; [right; right; right; left; reflexivity|].
+  split; [unfold below; vm_compute; repeat constructor|].
+  split; [repeat constructor|vm_compute; discriminate].
+Qed.
+
+Lemma field_set_data_hoisted_changes_receiver :
+  exists x data axes n, below n x /\
+    path_copied MCopy [C; "'constructs'"] x = true /\ path_copied MCopy [C] x = true /\
+    erase (fst (field_set_data true x data axes n)) <> erase x.
+Proof.
+  exists field_example, (Imm "d"), (Imm "tuple:['domainaxis1']"), 16.
+  split; [unfold below; vm_compute; repeat constructor|].
+  split; [reflexivity|split; [reflexivity|vm_compute; discriminate]].
+Qed.
+
+(* the filter history of a Constructs collection is copied at every depth:
+   one step, to be iterated along the chain of _prefiltered collections *)
+Lemma prefiltered_step : forall a kids pf p,
+  assoc "_prefiltered" kids = Some pf ->
+  path_copied MCopy ("_prefiltered" :: p) (Node a "Constructs" kids) = path_copied MCopy p pf.
+Proof. intros a kids pf p H. cbn [path_copied plain sel attr_mode]. simpl. rewrite H. reflexivity. Qed.
+
+Lemma construct_step : forall a kids tdict p,
+  assoc "_constructs" kids = Some tdict ->
+  path_copied MCopy ("_constructs" :: p) (Node a "Constructs" kids) = path_copied (MEach (MEach MCopy)) p tdict.
+Proof. intros a kids tdict p H. cbn [path_copied plain sel attr_mode]. simpl. rewrite H. reflexivity. Qed.
+
+(* a filtered collection: the visible part is empty here, the history holds one coordinate *)
+Definition filtered_example : obj :=
+  Node 0 "Constructs"
+    [("_constructs", Node 1 "dict" []);
+     ("_prefiltered", Node 2 "Constructs"
+        [("_constructs", Node 3 "dict" [("'dimension_coordinate'", Node 4 "dict"
+            [("'dimensioncoordinate0'", Node 5 "DimensionCoordinate" [(C, Node 6 "dict"
+                [("'custom'", Node 7 "dict" []); ("'properties'", Node 8 "dict" [("'units'", Imm "str:'m'")])])])])])])].
+
+Definition history_path : list string :=
+  ["_prefiltered"; "_constructs"; "'dimension_coordinate'"; "'dimensioncoordinate0'"; C; "'properties'"].
+
+Lemma history_example :
+  below 9 filtered_example /\ path_copied MCopy history_path filtered_example = true.
+Proof. split; [unfold below; vm_compute; repeat constructor|reflexivity]. Qed.
+
+(* seeded variant (history carried over by shallow_copy): the same write,
+   made through the copy, changes the source *)
+Lemma history_shared_if_shallow :
+  exists x n w, below n x /\
+    resolve (snd (copy x MCopyPV n)) w <> [] /\
+    erase (apply_all (resolve (snd (copy x MCopyPV n)) w) x) <> erase x /\
+    apply_all (resolve (snd (copy x MCopy n)) w) x = x.
+Proof.
+  exists filtered_example, 9,
+    {| pw_path := history_path; pw_key := "'units'"; pw_val := Some (Imm "str:'km'") |}.
+  split; [unfold below; vm_compute; repeat constructor|].
+  split; [vm_compute; discriminate|]. split; [vm_compute; discriminate|vm_compute; reflexivity].
 Qed.
